@@ -324,6 +324,7 @@ class Oracle:
         self.ctx, self.impl, self.sig = ctx, impl, sig
         self.keywords = set(keywords)
         self.nfail = 0
+        self.limit = 60          # seconds per print / parse call
 
     def roundtrip(self, t, setting):
         """Returns (failure kind or None, text, detail)."""
@@ -332,7 +333,7 @@ class Oracle:
         vars, svars = free_names(t)
         impl.set_context(vars, svars)
         try:
-            with time_limit(60):
+            with time_limit(self.limit):
                 text = impl.print_term(t, setting)
         except Timeout:
             raise
@@ -341,7 +342,7 @@ class Oracle:
         if not isinstance(text, str):
             return "print-not-text", None, repr(text)[:200]
         try:
-            with time_limit(60):
+            with time_limit(self.limit):
                 t2 = impl.quiet(impl.api_parse_term, text)
         except Timeout:
             raise
@@ -1147,13 +1148,20 @@ def stream_many_annotations(ctx, impl, sig, oracle):
     conj = G.Const("conj", G.TFun(G.BoolType, G.BoolType, G.BoolType))
     # printing a term with k annotations costs about (k/40)^5 * 0.3 s (type inference is re-run per annotation):
     # the quick tier stays below the old limit of 99 rounds, the thorough tier crosses it
+    big = ctx.tier == "thorough" and not ctx.coverage.get("many_annotations_big_done")
     for n_atom, atom in enumerate(atoms):
-        for k in ctx.scale([40], [40, 101, 120] if n_atom == 0 else [40, 101]):
+        for k in ([40, 101] if (big and n_atom == 0) else [40]):
             t = atom
             for _ in range(k - 1):
                 t = conj(atom, t)
             G.check_welltyped(sig, t)
-            oracle.check(t, [(False, None, False)] if k > 60 else [(False, None, False), (True, 80, True)], "many-annotations", nontrivial=True)
+            if k > 60:
+                ctx.coverage["many_annotations_big_done"] = True      # once per run: it costs about a minute
+                oracle.limit = 900
+            try:
+                oracle.check(t, [(False, None, False)] if k > 60 else [(False, None, False), (True, 80, True)], "many-annotations", nontrivial=True)
+            finally:
+                oracle.limit = 60
             ctx.count("many-annotations")
 
 
